@@ -1,3 +1,57 @@
+/* Contracts for src/lib/dl/multipart.c (C17: regex life-cycle, boundary extraction, part-header scanner) */
 #ifndef CONTRACTS_MULTIPART_H
 #define CONTRACTS_MULTIPART_H
+#include "stubs/regex.h"
+/* C17 typestate invariant of a zckDL: a pattern pointer that is not NULL holds a COMPILED pattern, and
+ * the part-header pattern never exists without the terminator pattern (multipart_extract uses
+ * end_regex whenever dl_regex is there).  Must hold after EVERY return, failing ones included: the
+ * next callback invocation, zck_dl_reset and zck_dl_free call regexec/regfree on whatever is there. */
+#define DL_RX_INV(dl) (RX_OK((dl)->hdr_regex) && RX_OK((dl)->dl_regex) && RX_OK((dl)->end_regex) && ((dl)->dl_regex == NULL || (dl)->end_regex != NULL))
+#define MP_WF(mp) (__CPROVER_rw_ok((mp), sizeof(zckMP)) && ((mp)->buffer == NULL || ((mp)->buffer_len > 0 && __CPROVER_rw_ok((mp)->buffer, (mp)->buffer_len) && __CPROVER_POINTER_OFFSET((mp)->buffer) == 0 && __CPROVER_OBJECT_SIZE((mp)->buffer) == (mp)->buffer_len)))
+#define DL_MP_CTX(dl) (__CPROVER_rw_ok((dl), sizeof(zckDL)) && ((dl)->zck == NULL || __CPROVER_rw_ok((dl)->zck, sizeof(zckCtx))) && DL_RX_INV(dl) && ((dl)->mp == NULL || MP_WF((dl)->mp)))
+/* a heap string whose last allocated byte is NUL (sufficient for "NUL-terminated inside its object") */
+#define STR_TERMINATED_RO(s) __CPROVER_r_ok((s), 1)
+#define STR_TERMINATED(s) (__CPROVER_r_ok((s), 1) && __CPROVER_POINTER_OFFSET(s) == 0 && (s)[__CPROVER_OBJECT_SIZE(s) - 1] == 0)
+
+void reset_mp(zckMP *mp)
+V_REQUIRES(mp == NULL || MP_WF(mp))
+V_ASSIGNS(mp != NULL: *mp)
+V_FREES(mp != NULL: mp->buffer)
+V_ENSURES(mp == NULL || (mp->buffer == NULL && mp->buffer_len == 0 && mp->state == 0 && mp->length == 0)) /*@C17,C05.reset_mp.parser_back_to_start*/
+;
+
+static char *add_boundary_to_regex(zckCtx *zck, const char *regex, const char *boundary)
+V_REQUIRES(zck == NULL || __CPROVER_rw_ok(zck, sizeof(*zck)))
+V_REQUIRES(regex == NULL || STR_TERMINATED_RO(regex))
+V_REQUIRES(boundary == NULL || STR_TERMINATED(boundary))
+V_ASSIGNS(zck != NULL: zck->error_state)
+V_ENSURES(__CPROVER_return_value == NULL || __CPROVER_is_fresh(__CPROVER_return_value, 1)) /*@C17.add_boundary_to_regex.fresh_or_null*/
+V_ENSURES(__CPROVER_return_value == NULL || __CPROVER_return_value[__CPROVER_OBJECT_SIZE(__CPROVER_return_value) - 1] == 0) /*@C17.add_boundary_to_regex.pattern_is_nul_terminated*/
+;
+
+static bool create_regex(zckCtx *zck, regex_t *reg, const char *regex)
+V_REQUIRES(zck == NULL || __CPROVER_rw_ok(zck, sizeof(*zck)))
+V_REQUIRES(reg == NULL || __CPROVER_rw_ok(reg, sizeof(regex_t)))
+V_REQUIRES(regex == NULL || __CPROVER_r_ok(regex, 1))
+V_ASSIGNS(zck != NULL: zck->error_state; reg != NULL: *reg)
+V_ENSURES(!__CPROVER_return_value || (reg != NULL && RX_COMPILED(reg))) /*@C17.create_regex.true_means_compiled*/
+V_ENSURES(__CPROVER_return_value || zck == NULL || zck->error_state > 0) /*@C17,C12.create_regex.failure_is_reported*/
+;
+
+static bool gen_regex(zckDL *dl)
+V_REQUIRES(dl == NULL || (DL_MP_CTX(dl) && dl->dl_regex == NULL && (dl->boundary == NULL || STR_TERMINATED(dl->boundary))))
+V_ASSIGNS(dl != NULL: dl->dl_regex; dl != NULL: dl->end_regex; dl != NULL && dl->zck != NULL: dl->zck->error_state)
+V_ENSURES(dl == NULL || DL_RX_INV(dl)) /*@C17.gen_regex.no_uncompiled_pattern_left_behind_on_any_return*/
+V_ENSURES(!__CPROVER_return_value || (dl->dl_regex != NULL && dl->end_regex != NULL)) /*@C17.gen_regex.true_means_both_patterns_ready*/
+;
+
+size_t multipart_get_boundary(zckDL *dl, char *b, size_t size)
+V_REQUIRES(dl == NULL || (DL_MP_CTX(dl) && size < SIZE_MAX && (size == 0 || __CPROVER_r_ok(b, size))))
+V_ASSIGNS(dl != NULL: dl->hdr_regex; dl != NULL: dl->boundary; dl != NULL && dl->mp != NULL: *dl->mp; dl != NULL && dl->zck != NULL: dl->zck->error_state)
+V_FREES(dl != NULL && dl->mp != NULL: dl->mp->buffer)
+V_ENSURES(dl == NULL || DL_RX_INV(dl)) /*@C17.multipart_get_boundary.no_uncompiled_pattern_left_behind_on_any_return*/
+V_ENSURES(__CPROVER_return_value == 0 || __CPROVER_return_value == size) /*@C17.multipart_get_boundary.accepts_the_line_or_reports_zero*/
+V_ENSURES(dl == NULL || dl->boundary == V_OLD(dl->boundary) || STR_TERMINATED(dl->boundary)) /*@C17.multipart_get_boundary.boundary_is_nul_terminated*/
+V_ENSURES(dl == NULL || dl->mp == NULL || MP_WF(dl->mp)) /*@C17.multipart_get_boundary.parser_state_well_formed*/
+;
 #endif
